@@ -123,6 +123,12 @@ func (s c8Script) String() string {
 				t = "c"
 			}
 			fmt.Fprintf(&sb, " M%s/%d/%s/%s/%d/%d", hex.EncodeToString(o.tok), o.code, ob, t, o.dt, o.tag)
+		case 'D':
+			ob := "-"
+			if o.hasObs {
+				ob = "o" + hex.EncodeToString(o.obs)
+			}
+			fmt.Fprintf(&sb, " D%s/%d/%s/%d/%d/%d", hex.EncodeToString(o.tok), o.code, ob, o.num, o.dt, o.tag)
 		case 'C':
 			fmt.Fprintf(&sb, " C%d/%d", o.id, o.code)
 		case 'X':
@@ -159,6 +165,21 @@ func parseC8Script(s string) (c8Script, error) {
 				o.obs, _ = hex.DecodeString(p[2][1:])
 			}
 			sc.ops = append(sc.ops, o)
+		case 'D':
+			// harness/c08conc.go: p[3] identical copies of one message handled concurrently
+			if len(p) != 6 {
+				return sc, fmt.Errorf("bad concurrent-copies op %q", w)
+			}
+			tok, _ := hex.DecodeString(p[0])
+			o := c8Op{kind: 'D', tok: tok, code: atoi(p[1]), num: atoi(p[3]), dt: int64(atoi(p[4])), tag: atoi(p[5])}
+			if strings.HasPrefix(p[2], "o") {
+				o.hasObs = true
+				o.obs, _ = hex.DecodeString(p[2][1:])
+			}
+			if o.num < 1 || o.num > 16 {
+				return sc, fmt.Errorf("bad number of copies in %q", w)
+			}
+			sc.ops = append(sc.ops, o)
 		case 'C':
 			sc.ops = append(sc.ops, c8Op{kind: 'C', id: atoi(p[0]), code: atoi(p[1])})
 		case 'X':
@@ -179,7 +200,7 @@ func (s c8Script) gapsOK() bool {
 	var ts []int64
 	t := int64(0)
 	for _, o := range s.ops {
-		if o.kind == 'M' || o.kind == 'W' {
+		if o.kind == 'M' || o.kind == 'W' || o.kind == 'D' {
 			t += o.dt
 			ts = append(ts, t)
 		}
@@ -748,6 +769,21 @@ func (r *c8Run) doReg(op c8Op) []string {
 	}
 }
 
+// directMsg builds the message of op for the direct mode (Handler.Handle called by the harness).
+func (r *c8Run) directMsg(op c8Op) *pool.Message {
+	m := r.fake.pl.AcquireMessage(context.Background())
+	m.SetCode(codes.Code(op.code))
+	m.SetToken(append([]byte(nil), op.tok...))
+	if op.tag%3 == 0 {
+		m.SetOptionBytes(message.ETag, []byte{byte(op.tag), 0x5a})
+	}
+	if op.hasObs {
+		m.SetOptionBytes(message.Observe, op.obs)
+	}
+	m.SetBody(bytes.NewReader([]byte{byte(op.tag >> 8), byte(op.tag)}))
+	return m
+}
+
 func (r *c8Run) doMsg(op c8Op) []string {
 	for _, g := range r.regs {
 		if g.obs != nil && op.dt != 0 {
@@ -777,16 +813,7 @@ func (r *c8Run) doMsg(op c8Op) []string {
 		r.inject(r.frame(typ, mid, op.tok, op.code, op.hasObs, op.obs, op.tag, true))
 		r.drain()
 	} else {
-		m := r.fake.pl.AcquireMessage(context.Background())
-		m.SetCode(codes.Code(op.code))
-		m.SetToken(append([]byte(nil), op.tok...))
-		if op.tag%3 == 0 {
-			m.SetOptionBytes(message.ETag, []byte{byte(op.tag), 0x5a})
-		}
-		if op.hasObs {
-			m.SetOptionBytes(message.Observe, op.obs)
-		}
-		m.SetBody(bytes.NewReader([]byte{byte(op.tag >> 8), byte(op.tag)}))
+		m := r.directMsg(op)
 		func() {
 			defer func() {
 				if recover() != nil {
@@ -1022,6 +1049,30 @@ func runC8Script(sc c8Script) (string, []string, bool, time.Duration, string) {
 			} else {
 				notDelivered++
 			}
+		case 'D':
+			// k identical copies handled at once: k events, the last one goes through the common tail below
+			now += op.dt * 1000000
+			os := r.doDup(op)
+			for i, oi := range os {
+				evs = append(evs, fmt.Sprintf("EMsg (M %s %d %s %d) %d", c8Bytes(op.tok), op.code, c8ObsCoq(op), op.tag, now))
+				cb := false
+				for _, x := range oi {
+					if strings.HasPrefix(x, "Cb ") {
+						cb = true
+					}
+				}
+				if cb {
+					delivered++
+				} else {
+					notDelivered++
+				}
+				if i < len(os)-1 {
+					outs = append(outs, "["+strings.Join(oi, "; ")+"]")
+				} else {
+					o = oi
+				}
+			}
+			r.features["concurrent-copies"] = true
 		case 'C':
 			var ok bool
 			o, ok = r.doCancel(op)
@@ -1642,7 +1693,7 @@ func runC08(a runArgs) error {
 		if !sc.gapsOK() {
 			// move the clock of every message a little instead of dropping the script
 			for i := range sc.ops {
-				if (sc.ops[i].kind == 'M' || sc.ops[i].kind == 'W') && sc.ops[i].dt > 0 {
+				if (sc.ops[i].kind == 'M' || sc.ops[i].kind == 'W' || sc.ops[i].kind == 'D') && sc.ops[i].dt > 0 {
 					sc.ops[i].dt += 7
 				}
 			}
@@ -1778,6 +1829,17 @@ func runC08(a runArgs) error {
 	}
 	for i := 0; i < nR; i++ {
 		pick(c8GenRelatedRandom(rng.Fork()), "related-tokens", i)
+	}
+	// identical copies of a notification handled by several goroutines at once (harness/c08conc.go); added last
+	for v := 0; v < 6; v++ {
+		addScript(c8Script{wire: false, ops: c8GenConcFixed(rng.Fork(), v)}, "concurrent-duplicates-scenarios")
+	}
+	nD := 24
+	if thorough {
+		nD = 300
+	}
+	for i := 0; i < nD; i++ {
+		addScript(c8Script{wire: false, ops: c8GenConcRandom(rng.Fork())}, "concurrent-duplicates")
 	}
 	e.Extra["discarded_scripts"] = discarded
 	e.Extra["watchdog_retries"] = badRetries
